@@ -228,6 +228,68 @@ fn main() {
                 let out = run_one(&fs, &ctl, ino, &names, r0, &progs, &prefix);
                 emit(&fs, r0, post, &progs, &out);
             }
+            "stress" => {
+                // free-running threads (no scheduling: workers are not registered, the callback returns at
+                // once): the program is run <iters> times from the same initial state and the distinct final
+                // counts are reported.  Last resort of the failing-input search when no yield point separates
+                // the racing steps.
+                let iters: usize = w[1].parse().unwrap();
+                let n = progs.len();
+                let start = Arc::new(std::sync::atomic::AtomicUsize::new(0));
+                let done = Arc::new(std::sync::atomic::AtomicUsize::new(0));
+                let stop = Arc::new(std::sync::atomic::AtomicBool::new(false));
+                let mut hs = vec![];
+                for t in 0..n {
+                    let (fs, prog, name, start, done, stop) = (fs.clone(), progs[t].clone(), names[t % names.len()].clone(), start.clone(), done.clone(), stop.clone());
+                    hs.push(std::thread::spawn(move || {
+                        let ctx = Context { uid: 0, gid: 0, pid: 1 };
+                        let mut round = 0usize;
+                        loop {
+                            while start.load(std::sync::atomic::Ordering::Acquire) <= round {
+                                if stop.load(std::sync::atomic::Ordering::Acquire) {
+                                    return;
+                                }
+                                std::hint::spin_loop();
+                            }
+                            round += 1;
+                            for op in &prog {
+                                match op {
+                                    Op::L => {
+                                        let _ = fs.lookup(&ctx, 1, &name);
+                                    }
+                                    Op::F(c) => fs.forget(&ctx, ino, *c),
+                                }
+                            }
+                            done.fetch_add(1, std::sync::atomic::Ordering::AcqRel);
+                        }
+                    }));
+                }
+                let mut outcomes: std::collections::BTreeMap<(i64, i32), usize> = Default::default();
+                for it in 0..iters {
+                    fs.forget(&ctx, ino, u64::MAX);
+                    for k in 0..r0 {
+                        fs.lookup(&ctx, 1, &names[k % names.len()]).expect("pre-lookup");
+                    }
+                    start.store(it + 1, std::sync::atomic::Ordering::Release);
+                    while done.load(std::sync::atomic::Ordering::Acquire) < (it + 1) * n {
+                        std::hint::spin_loop();
+                    }
+                    let rc = fs.verif_refcount(ino).map(|x| x as i64).unwrap_or(-1);
+                    let ga = fs.getattr(&ctx, ino, None).err().map(|e| e.raw_os_error().unwrap_or(-1)).unwrap_or(0);
+                    *outcomes.entry((rc, ga)).or_insert(0) += 1;
+                }
+                stop.store(true, std::sync::atomic::Ordering::Release);
+                for h in hs {
+                    let _ = h.join();
+                }
+                let o: Vec<String> = outcomes.iter().map(|((rc, ga), c)| format!("[{},{},{}]", rc, ga, c)).collect();
+                println!(
+                    "{{\"stress\":{},\"r0\":{},\"progs\":{:?},\"ino\":{},\"outcomes\":[{}]}}",
+                    iters, r0,
+                    progs.iter().map(|p| p.iter().map(|o| match o { Op::L => "L".to_string(), Op::F(c) => format!("F{}", c) }).collect::<Vec<_>>()).collect::<Vec<_>>(),
+                    ino, o.join(",")
+                );
+            }
             "dfs" => {
                 let max: usize = w[1].parse().unwrap();
                 let mut prefix: Vec<usize> = vec![];
